@@ -40,6 +40,8 @@ var litmusTests = []litmusCase{
 	{"send-on-closed", 1, []string{"PP"}, ""},
 	{"recv-on-closed", 1, []string{"70tf"}, ""},
 	{"close-closed", 1, []string{"P"}, ""},
+	{"global-fresh", 1, []string{"fresh"}, ""},
+	{"race-global", 1, nil, "race"},
 	{"race-plain", 1, nil, "race"},
 	{"race-map", 1, nil, "race"},
 	{"race-map-range", 1, nil, "race"},
